@@ -2,7 +2,7 @@
 From Coq Require Import List NArith ZArith Bool Lia Zdiv Zpow_facts Znumtheory Morphisms Setoid.
 From Coq Require Import ZifyN ZifyNat ZifyBool.
 Import ListNotations.
-Require Import V.base.Bytes V.base.Fld V.gen.Hagrid V.model.Transcript V.proofs.Transcript_proofs.
+Require Import V.base.Bytes V.base.Fld V.gen.Hagrid V.gen.Hashcom V.model.Transcript V.proofs.Transcript_proofs.
 Require Import V.model.Commit.
 
 (* ===================================================================== *)
@@ -18,16 +18,16 @@ Proof.
   - injection H as -> ->. apply andb_true_iff. split; [apply N.eqb_refl|apply IH; reflexivity].
 Qed.
 
-(* the framing fed to the hash: message ‖ witness with a witness of fixed length
-   determines both parts *)
-Theorem concat_fixed_suffix_injective (m1 w1 m2 w2 : bytes) :
-  length w1 = length w2 -> hashcom_input m1 w1 = hashcom_input m2 w2 -> m1 = m2 /\ w1 = w2.
-Proof. unfold hashcom_input. apply app_inj_tail_length. Qed.
+(* the framing fed to the hash (regenerated: gen/Hashcom.v): message ‖ witness with a
+   witness of fixed length determines both parts *)
+Theorem concat_fixed_suffix_injective (k m1 w1 m2 w2 : bytes) :
+  length w1 = length w2 -> hashcom_input k m1 w1 = hashcom_input k m2 w2 -> m1 = m2 /\ w1 = w2.
+Proof. unfold hashcom_input, hashcom_writes. apply app_inj_tail_length. Qed.
 
 (* without the length condition the framing is ambiguous: the boundary can move *)
 Lemma concat_ambiguous_without_fixed_length :
-  exists m1 w1 m2 w2 : bytes, hashcom_input m1 w1 = hashcom_input m2 w2 /\ m1 <> m2.
-Proof. exists [1%N], [2%N], [1%N; 2%N], []. split; [reflexivity|discriminate]. Qed.
+  exists k m1 w1 m2 w2 : bytes, hashcom_input k m1 w1 = hashcom_input k m2 w2 /\ m1 <> m2.
+Proof. exists [], [1%N], [2%N], [1%N; 2%N], []. split; [reflexivity|discriminate]. Qed.
 
 (* ===================================================================== *)
 (* hashcom                                                                *)
@@ -46,6 +46,7 @@ Section HashcomProofs.
     hashcom_commit H k m w = hashcom_commit H k' m' w' -> k = k' /\ m = m' /\ w = w'.
   Proof.
     intros Hl E. unfold hashcom_commit in E. apply H_inj in E. destruct E as [Hk Hi].
+    unfold hashcom_hash_key in Hk. subst k'.
     apply concat_fixed_suffix_injective in Hi; [|exact Hl]. tauto.
   Qed.
 
@@ -767,6 +768,84 @@ Proof.
   { rewrite <- (Z.mod_1_l q) by lia. rewrite <- Huv.
     rewrite Z_mod_plus_full. f_equal. ring. }
   unfold ped_equivocate. rewrite Hx. eexists; reflexivity.
+Qed.
+
+(* --- a changed key: with q prime, a commitment made under (g, h) opens under a key that
+       differs in one generator only in the degenerate cases r = 0 (h changed) / m = 0 (g changed) --- *)
+
+Lemma prime_mul_mod_0 q a b : prime q -> (a * b) mod q = 0 -> a mod q = 0 \/ b mod q = 0.
+Proof.
+  intros Hp H. pose proof (prime_ge_2 q Hp) as Hq.
+  apply Z.mod_divide in H; [|lia]. apply prime_mult in H; [|exact Hp].
+  destruct H as [H|H]; [left|right]; apply Z.mod_divide; (lia || exact H).
+Qed.
+
+Lemma scale_diff_zero q r a b : prime q -> (r * a) mod q = (r * b) mod q -> r mod q = 0 \/ a mod q = b mod q.
+Proof.
+  intros Hp E. pose proof (prime_ge_2 q Hp) as Hq.
+  assert (E0 : (r * (a - b)) mod q = 0).
+  { transitivity (((r * a) mod q - (r * b) mod q) mod q); [zmod q|]. rewrite E, Z.sub_diag. apply Z.mod_0_l. lia. }
+  destruct (prime_mul_mod_0 q r (a - b) Hp E0) as [H|H]; [left; exact H|right].
+  transitivity (((a - b) mod q + b) mod q); [zmod q|]. rewrite H. f_equal.
+Qed.
+
+Lemma add_cancel_mod q x a b : 0 < q -> (x + a) mod q = (x + b) mod q -> a mod q = b mod q.
+Proof.
+  intros Hq E. transitivity (((x + a) mod q - x) mod q); [zmod q|]. rewrite E. zmod q.
+Qed.
+
+Theorem ped_changed_h_fails q g h h' m r :
+  prime q -> lf_norm q h' <> lf_norm q h -> r mod q <> 0 ->
+  ped_open q {| pk_g := g; pk_h := h' |} (ped_commit q {| pk_g := g; pk_h := h |} m r) m r = false.
+Proof.
+  intros Hp Hne Hr. pose proof (prime_ge_2 q Hp) as Hq.
+  apply not_true_is_false. intros Ho. apply ped_open_spec in Ho. rewrite ped_commit_normal in Ho.
+  unfold ped_commit in Ho. cbn [pk_g pk_h] in Ho. destruct g as [g0 g1], h as [h0 h1], h' as [k0 k1].
+  revert Ho. sc_unfold. intros Ho. injection Ho as E0 E1.
+  apply Hne. unfold lf_norm; cbn [fst snd].
+  assert (A0 : (r * k0) mod q = (r * h0) mod q).
+  { apply (add_cancel_mod q (m * g0)); [lia|]. symmetry.
+    transitivity ((m * g0 mod q + r * h0 mod q) mod q); [zmod q|]. rewrite E0. zmod q. }
+  assert (A1 : (r * k1) mod q = (r * h1) mod q).
+  { apply (add_cancel_mod q (m * g1)); [lia|]. symmetry.
+    transitivity ((m * g1 mod q + r * h1 mod q) mod q); [zmod q|]. rewrite E1. zmod q. }
+  destruct (scale_diff_zero q r k0 h0 Hp A0) as [?|B0]; [contradiction|].
+  destruct (scale_diff_zero q r k1 h1 Hp A1) as [?|B1]; [contradiction|].
+  rewrite B0, B1. reflexivity.
+Qed.
+
+Theorem ped_changed_g_fails q g g' h m r :
+  prime q -> lf_norm q g' <> lf_norm q g -> m mod q <> 0 ->
+  ped_open q {| pk_g := g'; pk_h := h |} (ped_commit q {| pk_g := g; pk_h := h |} m r) m r = false.
+Proof.
+  intros Hp Hne Hm. pose proof (prime_ge_2 q Hp) as Hq.
+  apply not_true_is_false. intros Ho. apply ped_open_spec in Ho. rewrite ped_commit_normal in Ho.
+  unfold ped_commit in Ho. cbn [pk_g pk_h] in Ho. destruct g as [g0 g1], h as [h0 h1], g' as [k0 k1].
+  revert Ho. sc_unfold. intros Ho. injection Ho as E0 E1.
+  apply Hne. unfold lf_norm; cbn [fst snd].
+  assert (A0 : (m * k0) mod q = (m * g0) mod q).
+  { apply (add_cancel_mod q (r * h0)); [lia|]. symmetry.
+    transitivity ((m * g0 mod q + r * h0 mod q) mod q); [zmod q|]. rewrite E0. zmod q. }
+  assert (A1 : (m * k1) mod q = (m * g1) mod q).
+  { apply (add_cancel_mod q (r * h1)); [lia|]. symmetry.
+    transitivity ((m * g1 mod q + r * h1 mod q) mod q); [zmod q|]. rewrite E1. zmod q. }
+  destruct (scale_diff_zero q m k0 g0 Hp A0) as [?|B0]; [contradiction|].
+  destruct (scale_diff_zero q m k1 g1 Hp A1) as [?|B1]; [contradiction|].
+  rewrite B0, B1. reflexivity.
+Qed.
+
+(* ElGamal: a commitment made under x opens under another key only for the zero nonce *)
+Theorem eg_changed_key_fails q x x' mu r :
+  prime q -> x' mod q <> x mod q -> r mod q <> 0 ->
+  eg_open q x' (eg_enc q x mu r) mu r = false.
+Proof.
+  intros Hp Hne Hr. pose proof (prime_ge_2 q Hp) as Hq.
+  apply not_true_is_false. intros Ho. unfold eg_open, indcpa_open in Ho. apply lf_eqb_spec in Ho.
+  revert Ho. unfold eg_enc. sc_unfold. intros Ho. injection Ho as _ E.
+  rewrite Z.mod_mod in E by lia.
+  assert (A : (r * x') mod q = (r * x) mod q).
+  { apply (add_cancel_mod q mu); [lia|]. transitivity ((mu + r * x' mod q) mod q); [zmod q|]. rewrite E. zmod q. }
+  destruct (scale_diff_zero q r x' x Hp A); contradiction.
 Qed.
 
 (* ===================================================================== *)
